@@ -4,5 +4,5 @@ CONSTANTS
   HdrPerLine <- MCHdrPerLine
   CfgUniverse <- MCCfgs
   FileUniverse <- MCFiles
-INVARIANTS C17 C05 C01syn C18
+INVARIANTS C17 C05 C18
 CHECK_DEADLOCK FALSE
